@@ -43,6 +43,18 @@ let handle (f : string array) : string =
      | Ok (Some m) -> "some\t" ^ enc_str m
      | Ok None -> "none"
      | Err k -> "err:" ^ err_name k)
+  | "lstacks" ->
+    (* lstacks <TAB> minimum (= for none, v<name> otherwise) <TAB> one field per stack (= for a stack without versions) *)
+    let minver = if f.(1) = "=" then None else Some (dec_str (Stdlib.String.sub f.(1) 1 (Stdlib.String.length f.(1) - 1))) in
+    let stacks = Stdlib.List.map (fun s -> if s = "=" then [] else dec_strlist ',' s)
+        (Stdlib.Array.to_list (Stdlib.Array.sub f 2 (Stdlib.Array.length f - 2))) in
+    (match latest_over_stacks minver stacks with
+     | Ok (Some (i, m)) -> "some\t" ^ string_of_int (int_of_nat i) ^ "\t" ^ enc_str m
+     | Ok None -> "none\t\t"
+     | Err k -> "err:" ^ err_name k ^ "\t\t") ^ "\t" ^
+    (match latest_listing stacks with
+     | Ok l -> Stdlib.String.concat "," (Stdlib.List.map (fun (i, m) -> string_of_int (int_of_nat i) ^ ":" ^ enc_str m) l)
+     | Err k -> "err:" ^ err_name k)
   | "key" ->
     let v = dec_str f.(1) in
     if conv v then
